@@ -533,7 +533,7 @@ class DiffXReader(object):
             # it.
             try:
                 content = content.decode(encoding)
-            except UnicodeDecodeError as e:
+            except UnicodeError as e:
                 raise DiffXParseError(
                     'The content could not be decoded as "%s": %s'
                     % (encoding, e),
